@@ -398,14 +398,41 @@ theorem bindAll_mono {l : List (String × Val)} {f g : String → Option Val}
     · exact h x v
 
 /-- no `filter_vars` key is one of the names the evaluator binds itself -/
-def FvarsDisjoint (ty : TgtType) (fvars : Option (List (String × Val))) : Prop :=
-  ∀ l, fvars = some l → ∀ p ∈ l, p.1 ∉ apiBound ty
+def FvarsDisjoint (w : World) (ty : TgtType) (fvars : Option (List (String × Val))) : Prop :=
+  ∀ l, fvars = some l → ∀ p ∈ l, p.1 ∉ apiBound w ty
+
+/-- What the property relies on about the type system (host.ti, service.ti:44): `host`/`service` are the
+    target variables — no navigation field of Host is called `host`, a Service has the navigation field `host`
+    and none called `service`.  The driver checks it on the implementation's reflection. -/
+def NavOk (w : World) : TgtType → Prop
+  | .host => "host" ∉ w.navNames .host
+  | .service => "host" ∈ w.navNames .service ∧ "service" ∉ w.navNames .service
+
+/-- the last binding of a name wins; when all bindings of `x` agree on `g x` that is its value -/
+theorem bindAll_map {g : String → Val} {x : String} : ∀ (l : List String) (f : String → Option Val),
+    bindAll (l.map fun n => (n, g n)) f x = if x ∈ l then some (g x) else f x := by
+  intro l
+  unfold bindAll
+  induction l with
+  | nil => intro f; simp
+  | cons n l ih =>
+    intro f
+    simp only [List.map_cons, List.foldl_cons, ih, List.mem_cons]
+    by_cases hl : x ∈ l
+    · simp [hl]
+    · by_cases hn : x = n
+      · subst hn; simp [bind]
+      · simp [hl, hn, bind]
+
+
+theorem tgtOfD_of_tgtOf {t : Val} {ty : TgtType} (h : tgtOf t = some ty) : tgtOfD t = ty := by
+  cases t <;> simp [tgtOf] at h <;> subst h <;> rfl
 
 theorem apiVars_unbound (w : World) (l : List (String × Val)) {t : Val} {ty : TgtType} (hty : tgtOf t = some ty)
-    {x : String} (hx : x ∉ apiBound ty) : apiVars w l t x = bindAll l w.globals x := by
-  cases t <;> simp [tgtOf] at hty <;> subst hty <;>
-    simp [apiBound, navNames] at hx <;>
-    simp [apiVars, navNames, bindAll, bind, hx]
+    {x : String} (hx : x ∉ apiBound w ty) : apiVars w l t x = bindAll l w.globals x := by
+  simp only [apiBound, List.cons_append, List.nil_append, List.mem_cons, not_or] at hx
+  obtain ⟨h1, h2, h3⟩ := hx
+  simp only [apiVars, tgtOfD_of_tgtOf hty, bindAll_map, h3, if_false, bind, h1, h2]
 
 theorem bindAll_some_mem {l : List (String × Val)} {x : String} {v : Val}
     (h : bindAll l (fun _ => none) x = some v) : ∃ p ∈ l, p.1 = x := by
@@ -416,7 +443,7 @@ theorem bindAll_some_mem {l : List (String × Val)} {x : String} {v : Val}
   cases h
 
 theorem apiConsts_agree (w : World) {ty : TgtType} {fvars : Option (List (String × Val))}
-    (hd : FvarsDisjoint ty fvars) {t : Val} (hty : tgtOf t = some ty) :
+    (hd : FvarsDisjoint w ty fvars) {t : Val} (hty : tgtOf t = some ty) :
     ConstsAgree (apiConsts fvars) (apiEnv w (fvars.getD []) t) := by
   intro c hc x v hcx
   cases fvars with
@@ -430,17 +457,20 @@ theorem apiConsts_agree (w : World) {ty : TgtType} {fvars : Option (List (String
     rw [apiVars_unbound w l hty hx]
     exact bindAll_mono (fun _ _ h => by cases h) _ _ hcx
 
-theorem apiVars_host_host (w : World) (l : List (String × Val)) (h : String) :
+theorem apiVars_host_host (w : World) (hn : NavOk w .host) (l : List (String × Val)) (h : String) :
     apiVars w l (.host h) "host" = some (.host h) := by
-  simp [apiVars, navNames, bindAll, bind]
+  have : "host" ∉ w.navNames .host := hn
+  simp [apiVars, tgtOfD, bindAll_map, this, lcName, bind]
 
-theorem apiVars_service_host (w : World) (l : List (String × Val)) (h s : String) :
+theorem apiVars_service_host (w : World) (hn : NavOk w .service) (l : List (String × Val)) (h s : String) :
     apiVars w l (.service h s) "host" = some (.host h) := by
-  simp [apiVars, bind, hostOf]
+  have : "host" ∈ w.navNames .service := hn.1
+  simp [apiVars, tgtOfD, bindAll_map, this, navVal, hostOf]
 
-theorem apiVars_service_service (w : World) (l : List (String × Val)) (h s : String) :
+theorem apiVars_service_service (w : World) (hn : NavOk w .service) (l : List (String × Val)) (h s : String) :
     apiVars w l (.service h s) "service" = some (.service h s) := by
-  simp [apiVars, navNames, bindAll, bind]
+  have : "service" ∉ w.navNames .service := hn.2
+  simp [apiVars, tgtOfD, bindAll_map, this, lcName, bind]
 
 theorem foldr_slow {ev : Val → Option Bool} {f : Val → Bool} :
     ∀ ts : List Val, (∀ t ∈ ts, ev t = some (f t)) →
@@ -468,20 +498,21 @@ theorem ApiEquiv.refl (a : Option (List Val)) : ApiEquiv a a := by
   cases a <;> simp [ApiEquiv]
 
 theorem api_host_case (w : World) (fvars : Option (List (String × Val))) (e : Expr) (inv : Inventory)
-    (hd : FvarsDisjoint .host fvars) {names : List String} (hn : getTargetHosts (apiConsts fvars) e = some names) :
+    (hnav : NavOk w .host) (hd : FvarsDisjoint w .host fvars) {names : List String}
+    (hn : getTargetHosts (apiConsts fvars) e = some names) :
     apiSlow w fvars .host e inv = some ((targets inv .host).filter fun t => (names.map Val.host).contains t) := by
   unfold apiSlow
   apply foldr_slow
   intro t ht
   obtain ⟨h, rfl⟩ := mem_targets_host ht
   have hc := apiConsts_agree w hd (t := .host h) rfl
-  have := getTargetHosts_sound hc (by simp only [apiEnv]; exact apiVars_host_host w _ h) hn
+  have := getTargetHosts_sound hc (by simp only [apiEnv]; exact apiVars_host_host w hnav _ h) hn
   simp only [evalFilter, this, Option.map_some, Val.truthy]
   congr 1
   by_cases hm : h ∈ names <;> simp [hm]
 
 theorem api_service_case (w : World) (fvars : Option (List (String × Val))) (e : Expr) (inv : Inventory)
-    (hd : FvarsDisjoint .service fvars) {names : List (String × String)}
+    (hnav : NavOk w .service) (hd : FvarsDisjoint w .service fvars) {names : List (String × String)}
     (hn : getTargetServices (apiConsts fvars) e = some names) :
     apiSlow w fvars .service e inv = some ((targets inv .service).filter fun t =>
       (names.map fun p => Val.service p.1 p.2).contains t) := by
@@ -490,8 +521,8 @@ theorem api_service_case (w : World) (fvars : Option (List (String × Val))) (e 
   intro t ht
   obtain ⟨h, s, rfl⟩ := mem_targets_service ht
   have hc := apiConsts_agree w hd (t := .service h s) rfl
-  have := getTargetServices_sound hc (by simp only [apiEnv]; exact apiVars_service_host w _ h s)
-    (by simp only [apiEnv]; exact apiVars_service_service w _ h s) hn
+  have := getTargetServices_sound hc (by simp only [apiEnv]; exact apiVars_service_host w hnav _ h s)
+    (by simp only [apiEnv]; exact apiVars_service_service w hnav _ h s) hn
   simp only [evalFilter, this, Option.map_some, Val.truthy]
   congr 1
   by_cases hm : (h, s) ∈ names <;> simp [hm]
@@ -1091,8 +1122,8 @@ theorem indexSafe_all (inv : Inventory) (r : Rule) : IndexSafe inv r := by
   · intro t _
     simp [instances, forVal, Rule.fterm, Rule.fvvar, hl, instancesOf]
 
-theorem fvarsDisjoint_of_not_collide {ty : TgtType} {fvars : Option (List (String × Val))}
-    (h : fvarsCollide ty fvars = false) : FvarsDisjoint ty fvars := by
+theorem fvarsDisjoint_of_not_collide {w : World} {ty : TgtType} {fvars : Option (List (String × Val))}
+    (h : fvarsCollide w ty fvars = false) : FvarsDisjoint w ty fvars := by
   intro l hl p hp hmem
   subst hl
   simp only [fvarsCollide, List.any_eq_false] at h
